@@ -51,14 +51,11 @@ the failing case:
      makes commit() raise with the tip unchanged but the new revision in all_revision_ids()
  exception-after-tip-update:update_basis_by_delta | :post_commit-hook
      commit() raises although the branch tip already moved
- excluded-child-left-below-non-directory
-     commit(exclude=[child]) after a directory was replaced by a file and its child removed:
-     filter_excluded drops the child's removal, the delta is accepted and the committed
-     inventory cannot be read back (model variant `lax`, theorem excluded_child_corrupt_witness;
-     the variant is selected by a probe, so the check follows a repair)
- git-kind-change-dropped-from-index
-     git: a file <-> symlink change at one path is committed, but update_basis_by_delta
-     processes "add c" before "remove c" and drops c from the index
+ (repaired in /repo, no longer classified - a plain VIOLATION if they return:
+  4a41ee3 commit(exclude=[child]) after a directory was replaced by a file and its child
+  removed committed an inventory that cannot be read back - model variant `lax`, theorem
+  excluded_child_corrupt_witness; the probe must now select `strict`;
+  2888e6c git: a file <-> symlink change at one path was committed but dropped from the index)
  git-partial-commit-file-directory-conflict
      git: a selected path lies below a path that stays a file: GitCommitBuilder silently
      drops one of them instead of refusing
@@ -662,15 +659,10 @@ def run_bzr_query(base, basis, wtsnap, sel, excl, variant="strict"):
                 viol.append(("O3 selected id %s is at %r in the new revision but at %r in the working tree" % (i, np_.get(i), wp.get(i)), None))
         bad = wf_tree(new)
         if bad or unreadable:
-            fam = None
-            # the removal / move of a child was excluded while its parent was recorded as a non-directory
-            if excl and bad and all("is not a directory" in b_ for b_ in bad) and all(
-                    basis.get(j, {}).get("parent") == new[j]["parent"] and (inside(excl, bp.get(j)) or inside(excl, wp.get(j)))
-                    for j in new if new[j]["parent"] in new and new[new[j]["parent"]]["kind"] != "directory"):
-                fam = "excluded-child-left-below-non-directory"
+            # (the family excluded-child-left-below-non-directory was repaired by /repo 4a41ee3: a plain violation now)
             counters.append("bzr:ill-formed-commit")
             viol.append(("O3 the new revision tree is ill-formed: %s%s" % (bad[:3], "; reading it back fails with " + unreadable
-                                                                          if unreadable else ""), fam))
+                                                                          if unreadable else ""), None))
         # O4
         pend0 = {i for i in allids if basis.get(i) != wtsnap.get(i)}
         if unreadable:
@@ -869,13 +861,10 @@ def run_git_query(base, basis, wtsnap, changes, sel, excl):
         recorded = {p for p in allp | set(new) if new.get(p) != basis.get(p)}
         for p in sorted(recorded):
             if wt1.get(p) != new.get(p):
-                fam = None
-                b, n_ = basis.get(p), new.get(p)
-                if b is not None and n_ is not None and b["kind"] != n_["kind"] and p not in wt1 and p in wtsnap:
-                    fam = "git-kind-change-dropped-from-index"
+                # (the family git-kind-change-dropped-from-index was repaired by /repo 2888e6c: a plain violation now)
                 counters.append("git:recorded-path-dirty")
                 viol.append(("O4 path %r was committed as %r but the working tree now has %r (versioned before the commit: %r)"
-                             % (p, new.get(p), wt1.get(p), p in wtsnap), fam))
+                             % (p, new.get(p), wt1.get(p), p in wtsnap), None))
         for p in sorted(allp - recorded):
             if wtsnap.get(p, {}).get("kind") == "missing" and p not in wt1 and (
                     sel is None or inside_or_parent(sel, p)) and not inside(excl, p):
@@ -1302,6 +1291,12 @@ def run(ctx):
     global VARIANT
     variant = VARIANT = probe_validation()
     ctx.extra["validation_variant"] = variant
+    if variant == "lax":
+        ctx.violation(dict(fmt="bzr", script=[["mkdir", "d", "p1"], ["mkdir", "d/sub", "p2"], ["addfile", "d/sub/f", "1", False, "p3"],
+                                              ["commit", 1], ["remove", "d/sub/f", False], ["kind", "d/sub", "file"]],
+                           sel=None, excl=["d/sub/f"]),
+                      "probe: commit(exclude=['d/sub/f']) after replacing the directory d/sub by a file is accepted "
+                      "(the defect repaired by /repo 4a41ee3 is back: the committed inventory is ill-formed)")
     if variant not in ("strict", "lax"):
         ctx.mismatch(dict(kind="probe"), variant, "strict | lax")
         variant = VARIANT = "strict"
